@@ -1,5 +1,6 @@
 import Sml.Props.C15
 import Sml.Lemmas.Review2a
+import Sml.Props.C15Vec
 #print axioms Sml.C15.decode_eq
 #print axioms Sml.C15.iter_take_eq
 #print axioms Sml.C15.iter_eq
@@ -18,3 +19,5 @@ import Sml.Lemmas.Review2a
 #print axioms Sml.C15.differ_iff_oom
 #print axioms Sml.C15.first_difference_exists
 #print axioms Sml.C15.reference_buffer_independent_noOom
+#print axioms Sml.C15.fallible_push_eq_reference
+#print axioms Sml.C15.fallible_push_eq_decode
